@@ -22,15 +22,15 @@ def exR : Program :=
       | 1 => do
         Prog.lift .switch
         let u ← Prog.lift .getU
-        Prog.lift (.emit (toString u))
+        Prog.lift (.emit (if u % 2 == 0 then "main drew an even number" else "main drew an odd number"))
         let w ← Prog.lift .rand
-        Prog.lift (.emit (toString (w % 7)))
+        Prog.lift (.emit (if w % 2 == 0 then "even" else "odd"))
         pure ()
       | _ => do
         Prog.lift .requestYield
         Prog.lift .switch
         let u ← Prog.lift .getU
-        Prog.lift (.emit (toString (u + 1)))
+        Prog.lift (.emit (if u == 0 then "child 2 ran before main stored" else "child 2 ran after main stored"))
         pure () }
 
 /-- variant: child 1 panics if the drawn number is even (after a draw), main blocks for good: deadlock or panic -/
@@ -64,6 +64,15 @@ def exRDeadlock : Program :=
         pure () }
 
 def rr0 : RRState := { maxIterations := 3 }
+
+/-- the round-robin scheduler's state after its first `new_execution` (which returns seed 0) -/
+def rr1 : RRState := { iterations := 1, maxIterations := 3, data := (Rng.RandomDataSource.initialize 0).reinitialize.2 }
+
+theorem rr_newExec : rrScheduler.newExec rr0 = .some 0 rr1 := rfl
+
+/-- a hand-written scheduler: last offered task, draws count up from 100 (NOT a `RandomDataSource` stream) -/
+def lastCount : Scheduler Nat :=
+  { nextTask := fun s vs _ _ => (.choose (vs.getLast?.map (·.id)), s), nextU64 := fun s => (.ok (100 + s), s + 1) }
 
 /-- first execution of the round-robin scheduler on `P` -/
 def rrRun (P : Program) : Option (Nat × Result P RRState) :=
